@@ -48,8 +48,12 @@ func (c06) Runs(t Tier) int {
 }
 func (c06) RecordWidths() map[string]int { return nil }
 func (c06) RequiredProbes() []string {
-	return []string{"file-entity", "dir-entity", "plain-dir-entity", "linksystem-with-node-reifier", "via-path-selector", "preload-reifier", "preload-selector", "entity-selector", "fault-on-last-block", "fault-on-interior", "kth-load", "subset-fault", "entries-have-blocks"}
+	return []string{"file-entity", "dir-entity", "plain-dir-entity", "linksystem-with-node-reifier", "repeat-access-on-same-root-object", "via-path-selector", "preload-reifier", "preload-selector", "entity-selector", "fault-on-last-block", "fault-on-interior", "kth-load", "subset-fault", "entries-have-blocks"}
 }
+
+// repeatMarker in faultPlan.after selects the "access twice on one root
+// object" history (the value is never used as a byte offset by a not-found plan).
+const repeatMarker = -7
 
 type c06Scenario struct {
 	Kind   string `json:"kind"`
@@ -199,34 +203,54 @@ func (c06) Run(ts *tape.Set, tier Tier) *Result {
 				err = lerr
 				return
 			}
+			doAccess := func() error {
+				switch access {
+				case 0:
+					_, e := w.LS.KnownReifiers["unixfs-preload"](linking.LinkContext{}, rn, &w.LS)
+					return e
+				default:
+					target := unixfsnode.MatchUnixFSPreloadSelector
+					var visit traversal.VisitFn = func(traversal.Progress, datamodel.Node) error { return nil }
+					if access == 2 {
+						target = unixfsnode.MatchUnixFSEntitySelector
+						visit = unixfsnode.BytesConsumingMatcher
+					}
+					var sel datamodel.Node
+					if viaPath {
+						sel = unixfsnode.UnixFSPathSelectorBuilder(name, target, false)
+					} else {
+						sel = target.Node()
+					}
+					return walkMatching(w, rn, sel, visit)
+				}
+			}
+			if p != nil && p.after == repeatMarker {
+				// a history on ONE root object and ONE link system: the access
+				// succeeds on a complete store, then blocks go missing, then
+				// the same access is asked for again. Nothing remembered from
+				// the first time may stand in for actually loading the blocks.
+				if e := doAccess(); e != nil {
+					err = fmt.Errorf("first (fault-free) access failed: %w", e)
+					return
+				}
+				st.ResetLog()
+				res.probe("repeat-access-on-same-root-object")
+			}
 			if p != nil {
 				// a fault on the root block itself can only be met when the
 				// library re-requests it; arm after the caller's own load
 				hits = p.install(st)
 			}
-			switch access {
-			case 0:
-				_, err = w.LS.KnownReifiers["unixfs-preload"](linking.LinkContext{}, rn, &w.LS)
-			case 1, 2:
-				target := unixfsnode.MatchUnixFSPreloadSelector
-				var visit traversal.VisitFn = func(traversal.Progress, datamodel.Node) error { return nil }
-				if access == 2 {
-					target = unixfsnode.MatchUnixFSEntitySelector
-					visit = unixfsnode.BytesConsumingMatcher
-				}
-				var sel datamodel.Node
-				if viaPath {
-					sel = unixfsnode.UnixFSPathSelectorBuilder(name, target, false)
-				} else {
-					sel = target.Node()
-				}
-				err = walkMatching(w, rn, sel, visit)
-			}
+			err = doAccess()
 		})
 		if hits != nil {
 			hit = hits()
 		}
-		requested = append([]cid.Cid{start}, st.ReadCids[1:]...)
+		if len(st.ReadCids) > 0 && !(p != nil && p.after == repeatMarker) {
+			requested = append([]cid.Cid{start}, st.ReadCids[1:]...)
+		} else {
+			requested = append([]cid.Cid{start}, st.ReadCids...)
+		}
 		res.Execs++
 		res.Events += len(st.Log)
 		res.fired(st.Fired)
@@ -286,7 +310,11 @@ func (c06) Run(ts *tape.Set, tier Tier) *Result {
 		if b.Equals(entity) && !viaPath {
 			continue
 		}
-		plans = append(plans, faultPlan{kind: kinds[i%3], targets: []cid.Cid{b}, kth: -1, after: 11 * i, flavour: 1 + i%3})
+		fl := 1 + i%4
+		if fl == 4 && (viaPath || b.Equals(entity)) {
+			fl = 1 // SkipMe only on blocks that go-unixfsnode itself loads
+		}
+		plans = append(plans, faultPlan{kind: kinds[i%3], targets: []cid.Cid{b}, kth: -1, after: 11 * i, flavour: fl})
 	}
 	// every k when the sweep stays within ~3M block loads per run, otherwise
 	// evenly strided (a de-duplicated DAG can have thousands of loads for a
@@ -306,6 +334,16 @@ func (c06) Run(ts *tape.Set, tier Tier) *Result {
 				tg = append(tg, order[1+int(pr.Next()%uint64(len(order)-1))])
 			}
 			plans = append(plans, faultPlan{kind: kinds[int(pr.Next()%3)], targets: tg, kth: -1, after: int(pr.Next() & 0xffff)})
+		}
+	}
+	// repeat-on-the-same-root-object histories: first, middle and last block
+	// (not when the link system hands out reified nodes: the root object is
+	// then itself a node that legitimately keeps the shards it has loaded)
+	if len(order) >= 2 && !nodeReifier {
+		for _, i := range []int{1, len(order) / 2, len(order) - 1} {
+			if i >= 1 && i < len(order) {
+				plans = append(plans, faultPlan{kind: store.NotFound, targets: []cid.Cid{order[i]}, kth: -1, after: repeatMarker})
+			}
 		}
 	}
 	sc.Plans = len(plans)
